@@ -111,12 +111,11 @@ ASSUMPTIONS = [
     'recomposition of the aggregate from the public quantize functions with '
     'the key schedule used today is only reported as a label '
     '(recomposed_exact / key_schedule_changed), never as a violation',
-    'known open finding uniform-draw-exact-zero: jax.random.uniform returns '
-    'exactly 0.0 with probability 2^-23 per coordinate and `rand > threshold` '
-    'is then false for threshold 0, so a coordinate at the lower level is '
-    'moved to the upper one; keys whose draw uniform(key, shape) contains an '
-    'exact zero are excluded from the identity clause (label '
-    'excluded_known:uniform-draw-exact-zero); witness in replays/C11',
+    'fixed finding uniform-draw-exact-zero (repo commit 244a2ab): when '
+    'jax.random.uniform returned exactly 0.0 (probability 2^-23 per '
+    'coordinate) the binary quantizer moved a coordinate at the minimum to the '
+    'maximum; such keys are now INCLUDED in the identity clause and the witness '
+    'stays in replays/C11 as a regression case',
 ]
 
 U = 2.0 ** -24
@@ -1080,7 +1079,7 @@ def q_case(draw, tier, purpose):
   dom = DOM_SQ if q == 'terngrad' else DOM_WIDE
   vals = draw_values(draw, cls, min(size, 64), levels, dom)
   return {'q': q, 'levels': levels, 'shape': shape, 'cls': cls, 'values': vals,
-          'seed': draw(SEEDS), 'K': k_for(tier, size), 'zero_draw_keys': 'exclude',
+          'seed': draw(SEEDS), 'K': k_for(tier, size), 'zero_draw_keys': 'include',
           'eager': shape in EAGER_SHAPES[tier]}
 
 
@@ -1153,7 +1152,7 @@ def agg_dom(kind):
           'drive': DOM_SQ, 'terngrad': DOM_SQ}[kind]
 
 
-def draw_clients(draw, kind, levels, template, n, classes=None):
+def draw_clients(draw, kind, levels, template, n, classes=None, rel_all=None):
   """Returns per client the list of leaf value lists."""
   dom = agg_dom(kind)
   classes = classes or AGG_CLASSES
@@ -1161,7 +1160,8 @@ def draw_clients(draw, kind, levels, template, n, classes=None):
   per_leaf = []
   for size in template_sizes(template):
     m = min(size, 64)
-    rel = draw(st.sampled_from(['indep', 'indep', 'indep', 'same', 'collinear', 'zero']))
+    rel = rel_all or draw(st.sampled_from(['indep', 'indep', 'indep', 'same', 'collinear',
+                                           'zero']))
     if rel == 'zero':
       col = [draw_values(draw, 'zero', m, lv, dom) for _ in range(n)]
     elif rel == 'same':
@@ -1183,8 +1183,8 @@ def agg_levels(draw, kind):
   if kind == 'arith':
     return draw(st.sampled_from([2, 3, 4, 8, 16]))
   if kind == 'rotated':
-    return draw(st.one_of(st.sampled_from([2, 3, 4, 16, 64]), st.integers(2, 64),
-                          st.sampled_from([1024, 65536, 65536])))
+    return draw(st.one_of(st.sampled_from([65536, 1024, 4096]),
+                          st.sampled_from([2, 3, 4, 16, 64]), st.integers(2, 64)))
   return 2
 
 
@@ -1203,9 +1203,22 @@ def rounds_case(draw, tier):
   nrounds = draw(st.sampled_from([1, 2] if kind == 'arith' else [1, 2, 2, 3, 3, 4]))
   rounds = []
   for _ in range(nrounds):
-    n = draw(st.sampled_from([1, 1, 2, 2, 3, 3, 4, 5]))
-    ws = draw_weights(draw, n)
-    leaves = draw_clients(draw, kind, levels, template, n)
+    mode = draw(st.sampled_from(['free', 'free', 'identical_equal', 'free', 'single_unit',
+                                 'free']))
+    if mode == 'identical_equal':
+      # identical clients, equal weights: aggregate on the step/n-refined grid
+      n = draw(st.sampled_from([2, 3, 4]))
+      ws = [draw(st.sampled_from([1.0, 1.0, 2.0, 0.5]))] * n
+      leaves = draw_clients(draw, kind, levels, template, n,
+                            classes=['generic', 'generic', 'on_grid', 'two_valued'],
+                            rel_all='same')
+    elif mode == 'single_unit':
+      n, ws = 1, [1.0]
+      leaves = draw_clients(draw, kind, levels, template, n)
+    else:
+      n = draw(st.sampled_from([2, 1, 3, 2, 4, 5, 3]))
+      ws = draw_weights(draw, n)
+      leaves = draw_clients(draw, kind, levels, template, n)
     rounds.append({'clients': [{'w': w, 'leaves': l} for w, l in zip(ws, leaves)],
                    'scale': draw(st.sampled_from([1.0, 2.0, 0.5, 4.0, 0.25])),
                    'gen': draw(st.booleans())})
@@ -1298,7 +1311,7 @@ CHECKS = [
     Check(name='quantize_grid', run=run_grid,
           strategy=lambda tier: q_case(tier, 'grid'),
           labels=q_labels, nontrivial=q_nontrivial,
-          budget={'quick': 280, 'thorough': 8000}, time_share=2.0,
+          budget={'quick': 280, 'thorough': 4000}, time_share=2.0,
           doc='uniform / binary stochastic quantize, every one of K vmapped draws '
               'and 2 eager calls: each coordinate is (within float32 rounding) one '
               'of the two neighbouring levels of the float64 grid between min and '
@@ -1307,27 +1320,27 @@ CHECKS = [
     Check(name='quantize_identity', run=run_identity,
           strategy=lambda tier: q_case(tier, 'identity'),
           labels=q_labels, nontrivial=identity_nontrivial,
-          budget={'quick': 280, 'thorough': 6000}, time_share=1.0,
+          budget={'quick': 280, 'thorough': 3000}, time_share=1.0,
           doc='on-grid, constant and all-zero vectors pass through the uniform '
               'quantizer unchanged for every key; two-valued / constant / zero '
               'vectors through the binary quantizer exactly'),
     Check(name='quantize_unbiased', run=run_unbiased,
           strategy=lambda tier: q_case(tier, 'unbiased'),
           labels=q_labels, nontrivial=q_nontrivial,
-          budget={'quick': 360, 'thorough': 8000}, time_share=0.8,
+          budget={'quick': 360, 'thorough': 5000}, time_share=0.8,
           doc='statistical: mean over K keys equals the input per coordinate '
               'within the Hoeffding bound step*sqrt(20/K) (false alarm 8.5e-18 '
               'per coordinate)'),
     Check(name='terngrad_quantize', run=run_terngrad,
           strategy=lambda tier: q_case(tier, 'terngrad'),
           labels=q_labels, nontrivial=q_nontrivial,
-          budget={'quick': 280, 'thorough': 6000}, time_share=1.6,
+          budget={'quick': 280, 'thorough': 3000}, time_share=1.6,
           doc='TernGrad: outputs in {-s, 0, +s} with s = max|clip(v, 2.5 sigma)| '
               'of the float64 reference, signs preserved, finite, mean over K '
               'keys equals the clipped input (Hoeffding, width s)'),
     Check(name='aggregator_rounds', run=run_rounds, strategy=rounds_case,
           labels=rounds_labels, nontrivial=rounds_nontrivial,
-          budget={'quick': 200, 'thorough': 4200}, time_share=2.6,
+          budget={'quick': 200, 'thorough': 3000}, time_share=2.6,
           doc='histories of 1-4 rounds over the five aggregators: aggregate '
               'inside the weighted hull of the per-client neighbouring levels '
               '(hence within sum w*step/sum w of the exact weighted mean), on the '
@@ -1339,14 +1352,14 @@ CHECKS = [
     Check(name='aggregator_unbiased', run=run_agg_unbiased, strategy=agg_unbiased_case,
           labels=agg_unbiased_labels,
           nontrivial=lambda c, ls: len(c['clients']) >= 2,
-          budget={'quick': 24, 'thorough': 480}, time_share=1.4,
+          budget={'quick': 24, 'thorough': 320}, time_share=1.4,
           doc='uniform and TernGrad aggregators vmapped over K initial keys: every '
               'aggregate inside the weighted hull, and the mean over keys equals '
               'the exact weighted mean (of the clipped inputs for TernGrad) within '
               'the Hoeffding bound'),
     Check(name='aggregator_independence', run=run_independence, strategy=independence_case,
           labels=independence_labels, nontrivial=lambda c, ls: True,
-          budget={'quick': 64, 'thorough': 1200}, time_share=0.6,
+          budget={'quick': 64, 'thorough': 800}, time_share=1.0,
           doc='designed 128-coordinate probes: identical clients must be quantized '
               'with different randomness (aggregate under weights (1,1,..) differs '
               'from the one under (1,3,..)), consecutive rounds on the same input '
